@@ -817,7 +817,7 @@ func genC10(t *rapid.T) c10Case {
 	c.Tweak = rapid.Uint32().Draw(t, "tweak")
 	c.Flags = byte(rapid.IntRange(0, 2).Draw(t, "flags"))
 	ntx := rapid.IntRange(1, 10).Draw(t, "ntx")
-	if rapid.IntRange(0, 7).Draw(t, "fpmask") == 0 {
+	if !c10ForceWeb && rapid.IntRange(0, 7).Draw(t, "fpmask") == 0 {
 		// directed: a dense little filter in which insertions turn other elements into false positives.  D spends
 		// T's output and is relevant through nothing else; T and a few unrelated X match a watched item and insert
 		// their outpoints.  With D before T in the block, T's own outpoint may already "be there" (all its bits set
@@ -843,7 +843,7 @@ func genC10(t *rapid.T) c10Case {
 		c.Perm = append(c.Perm, rest...)
 		return c
 	}
-	if rapid.IntRange(0, 5).Draw(t, "chainmode") == 0 {
+	if !c10ForceWeb && rapid.IntRange(0, 5).Draw(t, "chainmode") == 0 {
 		// directed: a spend chain P -> Y1 -> Y2 ... in which every link becomes relevant only through its
 		// predecessor: P's output carries a watched item; each Yk spends the previous output and carries,
 		// as a data element, the serialisation of exactly the outpoint it spends.  Any block order.
@@ -888,7 +888,7 @@ func genC10(t *rapid.T) c10Case {
 		}
 		return c
 	}
-	if rapid.IntRange(0, 5).Draw(t, "webmode") == 0 {
+	if c10ForceWeb || rapid.IntRange(0, 5).Draw(t, "webmode") == 0 {
 		// directed: a small web instead of a chain.  The first transaction pays a watched item on several outputs;
 		// every later one spends one to three outputs of earlier ones (any of them) and its outputs pay the watched
 		// item, carry the serialisation of an outpoint it spends, or nothing.  A transaction can thus match a second
@@ -896,6 +896,11 @@ func genC10(t *rapid.T) c10Case {
 		// its dependants were already looked at.  Orders: random and children-first.
 		c.Flags = byte(rapid.SampledFrom([]int{1, 1, 1, 2}).Draw(t, "webflags"))
 		c.Len, c.K = 2000, 10
+		if c10ForceWeb || rapid.IntRange(0, 2).Draw(t, "webdense") == 0 {
+			// a filter of 16..48 bits: an inserted outpoint makes unrelated elements match (ordinary false positives), so
+			// transactions start to match for reasons that only arise while the block is being scanned
+			c.Len, c.K = rapid.IntRange(2, 6).Draw(t, "weblen"), uint32(rapid.IntRange(1, 3).Draw(t, "webk"))
+		}
 		c.Txs = nil
 		watched := scriptSpec{Cls: "pushes", Items: []int{5 % len(c.Pool)}, Enc: []int{0}}
 		if c.Flags == 2 {
@@ -914,7 +919,9 @@ func genC10(t *rapid.T) c10Case {
 				tx.Ins = append(tx.Ins, c10In{Src: src, Out: uint32(rapid.IntRange(0, 2).Draw(t, "webout")), Script: scriptSpec{Cls: "empty"}})
 			}
 			for k := rapid.IntRange(1, 3).Draw(t, "webouts"); k > 0; k-- {
-				switch rapid.IntRange(0, 3).Draw(t, "webocls") {
+				switch rapid.IntRange(0, 4).Draw(t, "webocls") {
+				case 4: // an unwatched element: relevant only if the filter comes to match it by accident
+					tx.Outs = append(tx.Outs, scriptSpec{Cls: "pushes", Items: []int{rapid.IntRange(0, len(c.Pool)-1).Draw(t, "webitem")}, Enc: []int{0}})
 				case 0:
 					tx.Outs = append(tx.Outs, watched)
 				case 1, 2:
@@ -928,6 +935,9 @@ func genC10(t *rapid.T) c10Case {
 		c.Preload = []c10Preload{{Kind: "item", A: 5 % len(c.Pool)}}
 		if c.Flags == 2 {
 			c.Preload = []c10Preload{{Kind: "item", A: 0}}
+		}
+		if rapid.Bool().Draw(t, "webtxid") { // one transaction is watched by its id: it matches without changing the filter
+			c.Preload = append(c.Preload, c10Preload{Kind: "txid", A: rapid.IntRange(0, nweb).Draw(t, "webtxidwhich")})
 		}
 		if rapid.IntRange(0, 3).Draw(t, "webspread") == 0 {
 			c.Filler, c.FillerSpread = rapid.SampledFrom([]int{60, 64, 100, 256, 300}).Draw(t, "webfiller"), true
@@ -1053,6 +1063,18 @@ func c10SavedCases() (out []c10Case) {
 
 var kC10 = register(&Kind[c10Case]{Prop: "C10", Name: "filtertx", Gen: genC10, Eval: evalC10})
 
+// c10ForceWeb makes genC10 produce only its small-web mode with a filter of a few dozen bits (generators run one
+// at a time within a shard).  These cases are tiny, so thousands of them are affordable: what needs two or three
+// accidental matches to line up in a four-transaction pattern gets its chance.
+var c10ForceWeb bool
+
+var kC10Web = register(&Kind[c10Case]{Prop: "C10", Name: "web-dense", Eval: evalC10,
+	Gen: func(t *rapid.T) c10Case {
+		c10ForceWeb = true
+		defer func() { c10ForceWeb = false }()
+		return genC10(t)
+	}})
+
 func TestC10(t *testing.T) {
 	propTest(t, "C10", func(ev *Ev) {
 		ev.Rule("blocks of 1..10 transactions built from a script grammar (P2PK, multisig, P2PKH, P2SH, nulldata, push sequences with "+
@@ -1088,6 +1110,7 @@ func TestC10(t *testing.T) {
 			kC10.One(ev, big)
 		}
 		kC10.Run(t, ev, perShard(pick(6000, 700000)))
+		kC10Web.Run(t, ev, perShard(pick(12000, 400000)))
 		ev.requireClasses("C10:out-class=pubkey", "C10:out-class=multisig", "C10:out-class=pubkeyhash", "C10:out-class=scripthash",
 			"C10:out-class=nulldata", "C10:out-class=nonstandard", "C10:tx-reason=txid", "C10:tx-reason=output-push",
 			"C10:tx-reason=spent-outpoint", "C10:tx-reason=input-push", "C10:tx-reason=updated",
